@@ -11,6 +11,7 @@ import (
 	"reflect"
 	"strings"
 	"testing"
+	"time"
 
 	"cuelabs.dev/go/oci/ociregistry"
 	"pgregory.net/rapid"
@@ -27,6 +28,10 @@ type Script struct {
 	Set      uint64 `json:"set"` // bit i = function field i is set
 	NewError bool   `json:"new_error"`
 	Method   int    `json:"method"`
+	// Args selects the shape of the arguments: bits 0-1 the context (0 live, 1 cancelled,
+	// 2 past its deadline), bits 2-3 the integers (0 unique sentinels, 1 all zero, 2 all -1,
+	// 3 zero then -1: the "whole blob" range), bit 4 empty strings instead of sentinels.
+	Args int `json:"args,omitempty"`
 }
 
 // field describes one function field of Funcs, discovered by reflection so
@@ -77,22 +82,47 @@ type sentinelErr struct{ id int }
 func (e *sentinelErr) Error() string { return fmt.Sprintf("sentinel error %d", e.id) }
 
 // argsFor builds unique sentinel arguments for a function type.
-func argsFor(t reflect.Type, salt int) []reflect.Value {
+func argsFor(t reflect.Type, salt int, shape int) []reflect.Value {
 	args := make([]reflect.Value, t.NumIn())
+	nint := 0
 	for i := range args {
 		at := t.In(i)
 		tag := fmt.Sprintf("m%d-a%d", salt, i)
 		switch {
 		case at == ctxType:
-			args[i] = reflect.ValueOf(context.WithValue(context.Background(), ctxKey{}, tag))
+			ctx := context.WithValue(context.Background(), ctxKey{}, tag)
+			switch shape & 3 {
+			case 1:
+				c, cancel := context.WithCancel(ctx)
+				cancel()
+				ctx = c
+			case 2:
+				c, cancel := context.WithDeadline(ctx, time.Unix(1, 0))
+				cancel()
+				ctx = c
+			}
+			args[i] = reflect.ValueOf(ctx).Convert(ctxType)
 		case at == readerType:
 			args[i] = reflect.ValueOf(io.Reader(bytes.NewReader([]byte(tag)))).Convert(readerType)
 		case at == descType:
 			args[i] = reflect.ValueOf(ociregistry.Descriptor{MediaType: tag, Size: int64(salt*100 + i)})
 		case at.Kind() == reflect.String:
+			if shape&16 != 0 {
+				tag = ""
+			}
 			args[i] = reflect.ValueOf(tag).Convert(at)
 		case at.Kind() == reflect.Int64 || at.Kind() == reflect.Int:
-			args[i] = reflect.ValueOf(int64(salt*1000 + i)).Convert(at)
+			n := int64(salt*1000 + i)
+			switch (shape >> 2) & 3 {
+			case 1:
+				n = 0
+			case 2:
+				n = -1
+			case 3:
+				n = -int64(min(nint, 1))
+			}
+			nint++
+			args[i] = reflect.ValueOf(n).Convert(at)
 		case at.Kind() == reflect.Slice && at.Elem().Kind() == reflect.Uint8:
 			args[i] = reflect.ValueOf([]byte(tag))
 		default:
@@ -232,7 +262,7 @@ func run(s Script, v *vt.V) {
 		v.Failf("", "Funcs has field %s but no method %s", fd.name, fd.method)
 		return
 	}
-	args := argsFor(fd.typ, s.Method)
+	args := argsFor(fd.typ, s.Method, s.Args)
 	set := !s.Nil && s.Set&(1<<uint(s.Method)) != 0
 
 	// classification
@@ -261,7 +291,7 @@ func run(s Script, v *vt.V) {
 	// Non-trivial: some *other* field's state differs from the called one's
 	// (this is where a guard on a neighbour's field shows), or nil receiver.
 	if s.Nil || (set && others != allOthers) || (!set && others != 0) {
-		v.NonTrivial(fmt.Sprintf("%v/%x/%v/%d", s.Nil, s.Set, s.NewError, s.Method))
+		v.NonTrivial(fmt.Sprintf("%v/%x/%v/%d/%d", s.Nil, s.Set, s.NewError, s.Method, s.Args))
 	}
 
 	outs := mv.Call(args) // a panic here is caught by vt and reported
@@ -377,13 +407,14 @@ func callFields(cs []call) []string {
 var propRandom = &vt.Prop[Script]{
 	ID:   "C20",
 	Name: "FuncsRandomTable",
-	Rule: "rapid: uniformly random set/unset assignment to all function fields (found by reflection) x nil/non-nil table x with/without NewError x method called; non-trivial = nil table, or some other field's set-state differs from the called method's; distinct = (nil, assignment bits, NewError, method)",
+	Rule: "rapid: uniformly random set/unset assignment to all function fields (found by reflection) x nil/non-nil table x with/without NewError x method called x argument shape (live / cancelled / expired context; unique, zero, negative and whole-blob-range integers; empty strings); non-trivial = nil table, or some other field's set-state differs from the called method's; distinct = (nil, assignment bits, NewError, method)",
 	Gen: func(t *rapid.T) Script {
 		return Script{
 			Nil:      rapid.IntRange(0, 15).Draw(t, "nil") == 0,
 			Set:      rapid.Uint64Range(0, uint64(1)<<uint(len(fields))-1).Draw(t, "set"),
 			NewError: rapid.Bool().Draw(t, "newError"),
 			Method:   rapid.IntRange(0, len(fields)-1).Draw(t, "method"),
+			Args:     rapid.SampledFrom([]int{0, 0, 1, 2, 4, 8, 12, 16, 13, 30}).Draw(t, "args"),
 		}
 	},
 	Run: run,
@@ -392,7 +423,7 @@ var propRandom = &vt.Prop[Script]{
 var propStructured = &vt.Prop[Script]{
 	ID:   "C20",
 	Name: "FuncsStructured",
-	Rule: "enumeration of the assignments the property names: each method alone, all-but-one, all, none, every pair (called method's field, one neighbour) in all four set-states, nil table; x with/without NewError x all methods",
+	Rule: "enumeration of the assignments the property names: each method alone, all-but-one, all, none, every pair (called method's field, one neighbour) in all four set-states, nil table; x with/without NewError x all methods x six argument shapes (live, cancelled and expired contexts, zero / negative integers, the (0,-1) range, empty strings)",
 	Run:  run,
 }
 
@@ -423,20 +454,22 @@ func TestPropStructured(t *testing.T) {
 		}
 		for m := 0; m < n; m++ {
 			for _, ne := range []bool{false, true} {
-				if !emit(Script{Nil: true, NewError: ne, Method: m}) {
-					return
-				}
-				sets := []uint64{0, all}
-				for i := 0; i < n; i++ {
-					sets = append(sets, 1<<uint(i), all&^(1<<uint(i)))
-					// pairs: field i and the called method in every combination, rest unset / rest set
-					if i != m {
-						sets = append(sets, 1<<uint(i)|1<<uint(m), all&^(1<<uint(i)|1<<uint(m)))
-					}
-				}
-				for _, set := range sets {
-					if !emit(Script{Set: set, NewError: ne, Method: m}) {
+				for _, shape := range []int{0, 1, 2, 12, 16, 29} {
+					if !emit(Script{Nil: true, NewError: ne, Method: m, Args: shape}) {
 						return
+					}
+					sets := []uint64{0, all}
+					for i := 0; i < n; i++ {
+						sets = append(sets, 1<<uint(i), all&^(1<<uint(i)))
+						// pairs: field i and the called method in every combination, rest unset / rest set
+						if i != m {
+							sets = append(sets, 1<<uint(i)|1<<uint(m), all&^(1<<uint(i)|1<<uint(m)))
+						}
+					}
+					for _, set := range sets {
+						if !emit(Script{Set: set, NewError: ne, Method: m, Args: shape}) {
+							return
+						}
 					}
 				}
 			}
